@@ -124,7 +124,12 @@ func c01Check(s *sim, _ bool) vh.HistResult {
 				continue
 			}
 			name := strings.TrimSuffix(e.Path, fullExt)
-			if h := st.Hashes[name]; h != "" && h != e.MD5 && st.States[name] != stateFailed {
+			// (only while that announcement is the one in progress: when the cache entry of the name
+			// records a DELIVERED version - finalized or logged -, a complete body lying next to it is the
+			// leftover of another version, e.g. of a failed newer one whose companion a late duplicate of
+			// the delivered version replaced before the receiver was restarted; what was delivered is
+			// judged above, at the moment of delivery)
+			if h := st.Hashes[name]; h != "" && h != e.MD5 && st.States[name] != stateFailed && st.States[name] < stateFinalized {
 				res.Viol = fmt.Sprintf("step %d %s: complete staged file %s hashes to %s, announced %s, but its state is %d (not failed)\n%s", i, st.Act, e.Path, e.MD5, h, st.States[name], s.trace())
 				return res
 			}
